@@ -20,6 +20,13 @@ EmitText == PrintT(ToJson([w |-> "tlog", k |-> "rectext",
                            in |-> [text |-> t, id |-> 12345, rest |-> S("x")],
                            exp |-> [valid |-> ValidRecordText(t), lenient |-> LenientRecordText(t)]]))
 
+\* record ids of every decimal length that matters (as digit strings: TLC's integers have 32 bits)
+BigIds == {S("0"), S("9"), S("4294967296"), S("999999999999999999"), S("1000000000000000000"), S("9223372036854775807")}
+EmitIds == Len(t) <= 2 => \A id \in BigIds :
+    PrintT(ToJson([w |-> "tlog", k |-> "rectext",
+                   in |-> [text |-> t, id |-> 0, idstr |-> id, rest |-> S("x")],
+                   exp |-> [valid |-> ValidRecordText(t), lenient |-> LenientRecordText(t)]]))
+
 Firsts == {TreePrefix, S("go.sum database tree v2"), S("go.sum database tre")}
 Sizes == {S("0"), S("5"), S("05"), S("+5"), S("-1"), S("-0"), <<>>, S("5 "), S("12345678"),
           S("9223372036854775807"), S("9223372036854775808"), S("99999999999999999999"), S("0x10"), S("1e3")}
